@@ -404,6 +404,32 @@ def scripted_user_kinds(M, rec):
                     net.is_valid(raises=r)
                 except Exception:
                     pass
+    # a kind declared a ramp (ABC.register) only AFTER networks holding it have been validated: what an origin is, is asked
+    # at the time of each validation (fresh classes per run: registration cannot be undone)
+    for first in ("interior", "source", "merge"):
+        LateRamp = type("LateRamp", (UK.BoundaryDetector,), {})
+        nets = []
+        for where in (first, "interior", "merge"):
+            n = [M.Node() for _ in range(4)]
+            net = M.Network().add_path((n[0], mk(), n[1], mk(), n[2]), origin=M.Origin(), destination=M.Destination())
+            if where == "merge":
+                net.add_path((n[3], mk(), n[1]), origin=M.MainstreamOrigin())
+            net.add_origin(LateRamp(), n[0] if where == "source" else n[1])
+            nets.append(net)
+        for r in (False, True):
+            try:
+                nets[0].is_valid(raises=r)
+            except Exception:
+                pass
+        M.MeteredOnRamp.register(LateRamp)
+        for net in nets:
+            rec.count("scripted_user_kind_graphs")
+            rec.count("validations_after_late_registration")
+            for r in (False, True):
+                try:
+                    net.is_valid(raises=r)
+                except Exception:
+                    pass
 
 
 def run(M, rec, tier, seed, k, n):
